@@ -1262,9 +1262,16 @@ class Interp:
                     return a % b
                 except Exception:
                     pass
+            vals_ = b if isinstance(b, tuple) else (b,)
+            if all(isinstance(x_, (str, int, float, Arr, bool)) for x_ in vals_):
+                return Fmt(a, tuple(vals_))          # a string formatted from symbolic values: the values are kept (a hook that receives it can inspect them)
             return Unk('string formatting', node)
         if isinstance(a, str) and isinstance(b, str) and isinstance(op, ast.Add):
             return a + b
+        if isinstance(op, ast.Add) and (isinstance(a, Fmt) or isinstance(b, Fmt)) and isinstance(a, (str, Fmt)) and isinstance(b, (str, Fmt)):
+            fa, va = (a.fmt, a.values) if isinstance(a, Fmt) else (a.replace('%', '%%'), ())
+            fb, vb = (b.fmt, b.values) if isinstance(b, Fmt) else (b.replace('%', '%%'), ())
+            return Fmt(fa + fb, va + vb)
         if isinstance(a, str) or isinstance(b, str):
             return Unk('string arithmetic', node)
         if isinstance(a, list) and isinstance(b, list) and isinstance(op, ast.Add):
@@ -2528,6 +2535,15 @@ class _WhereIdx:
 
     def sel_label(self):
         return 'sel:' + alg.show(self.mask.poly, 400)
+
+
+class Fmt(Foreign):
+    """'format' % values with symbolic values"""
+    def __init__(self, fmt, values):
+        self.fmt, self.values = fmt, values
+
+    def __repr__(self):
+        return 'Fmt<%r %% %d values>' % (self.fmt[:30], len(self.values))
 
 
 class _Closing:
